@@ -35,7 +35,7 @@ PROBES = [
     "*e* **s** <b>h</b>\n\n<div>\nx\n</div>\n",
 ]
 RULE_NAMES = ["balance_pairs", "fragments_join", "table", "strikethrough", "emphasis", "link", "image", "list", "blockquote", "fence", "code", "reference", "backticks", "heading", "smartquotes", "replacements", "entity", "escape", "html_inline", "html_block", "autolink", "hr", "lheading", "newline"]
-EXC_KINDS = ["Exception", "KeyError", "IndexError", "BaseException", "StopIteration"]
+EXC_KINDS = ["Exception", "KeyError", "IndexError", "BaseException", "StopIteration", "RecursionError"]
 
 
 class InjectedError(Exception):
@@ -55,6 +55,8 @@ def make_exc(kind: str):
         return InjectedBase("injected")
     if kind == "StopIteration":
         return StopIteration("injected")
+    if kind == "RecursionError":
+        return RecursionError("injected")
     return InjectedError("injected")
 
 
